@@ -2,14 +2,12 @@
 from composite import install
 TIE = "corr:pe"
 TIE_THEOREM = "Relic.Props.C01 (models Relic.Model.PE vs lib/authenticode)"
-UNPROVED = ['Relic.Props.C01.vsix_sign_then_verify_full (every package relic signs verifies): false, witness vsix_uri_roundtrip_gap (part names that do not survive the Reference URI); proved under the decidable guards cfgOk / refsOk with the XML-DSig layer, encoding/xml and digests as parameters (VsixSound)', 'Relic.Props.C01.macho_sign_then_verify_full (end to end over scan/sign/locate; proved at patch-set level: macho_sign_then_verify_partial)', 'appx_sign_then_verify_full (model verifier accepts what the model signer wrote: needs Read∘WriteDirectory round trip; executed per op)', 'Relic.Props.C01.deb_sign_then_verify_full (text layer: checkSig accepts the canonical text of the message it was built from; proved at the archive layer: deb_sign_then_verify, plus a decided end-to-end instance)']
+UNPROVED = ['Relic.Props.C01.vsix_sign_then_verify_full_orig (code before the repair of FV1): false, witness vsix_uri_roundtrip_gap; for the repaired code vsix_sign_then_verify holds at full strength (sign succeeds => verify accepts; refusals characterised by vsix_sign_refuses_iff), with the XML-DSig layer, encoding/xml and digests as parameters (VsixSound)', 'Relic.Props.C01.macho_sign_then_verify_full (end to end over scan/sign/locate; proved at patch-set level: macho_sign_then_verify_partial)', 'appx_sign_then_verify_full (model verifier accepts what the model signer wrote: needs Read∘WriteDirectory round trip; executed per op)', 'Relic.Props.C01.deb_sign_then_verify_full (text layer: checkSig accepts the canonical text of the message it was built from; proved at the archive layer: deb_sign_then_verify, plus a decided end-to-end instance)']
 IMPL_PARALLEL = 16
 install(globals(), "C01", ["pe", "e2e", "cab", "ps", "jar", "apk", "xsig", "apkv", "deb", "appx", "pgp", "macho", "magic", "vsix", "ident", "xap", "msisign", "dmg"])
 
 # file-type detection and signer dispatch (checklib/models/magic.py): tables re-extracted from the Go source on every run
 import magic as _magic
-UNPROVED = UNPROVED + ["Relic.Props.C01.server_refuses_what_standalone_refuses_full (false on the unchanged tree: witness server_nil_sign_panic, "
-                       "known finding magic:server-nil-sign; proved: server_panics_only_for_verify_only_modules_partial)"]
 
 
 def generate(ctx):
